@@ -1571,6 +1571,30 @@ class _Ops:
         y.cause = x.cause
         return y
 
+    def _holds(self, t) -> Dict[str, Any]:
+        """Digest of what transform t holds (grid, conditioning, parameter values, flags), members included."""
+        out: Dict[str, Any] = {}
+
+        def rec(o, path):
+            out[path + ".grid"] = gen.grid_key(o.grid())
+            a, kw = o.condition()
+            out[path + ".cond"] = digest_bytes(*[tdig(v) if isinstance(v, Tensor) else repr(v).encode() for v in list(a) + [kw[k] for k in sorted(kw)]])
+            if isinstance(o, CompositeTransform):
+                for name, m in o.named_transforms():
+                    rec(m, path + "/" + name)
+                return
+            p = getattr(o, "params", None)
+            out[path + ".kind"] = kind_of(o) + (":" + str(id(p)) if not isinstance(p, Tensor) and p is not None else "")
+            if isinstance(p, Tensor):
+                out[path + ".params"] = (tuple(p.shape), digest_bytes(p.detach().contiguous().numpy().tobytes()))
+            if hasattr(o, "invert"):
+                out[path + ".invert"] = bool(o.invert)
+            if hasattr(o, "exp"):
+                out[path + ".exp"] = (float(o.exp.scale), int(o.exp.steps), bool(o.exp.align_corners))
+
+        rec(t, "")
+        return out
+
     def _inherit_members(self, src, dst, comp: int):
         """Members of a copied composite start in the model state of the member they were copied from."""
         a, b = list(src.transforms()), list(dst.transforms())
@@ -1591,6 +1615,8 @@ class _Ops:
         how = op["how"]
         hid = int(op["out"])
         t = x.obj
+        # what the receiver holds before a non-mutating accessor: it must hold exactly that afterwards
+        held_before = self._holds(t)
         if how == "copy":
             st, r = self.guarded(lambda: _copy.copy(t))
             buf = x.buf
@@ -1598,7 +1624,7 @@ class _Ops:
             if x.is_comp or family(t) == "spline":
                 return StepResult("skipped")
             g = self.make_grid(op["grid"])
-            if self.shape_bound(x):
+            if self.shape_bound(x) or op.get("same_size"):
                 g = Grid(size=t.grid().size(), spacing=g.spacing(), center=g.center(), direction=g.direction(), align_corners=g.align_corners())
             old_grid = t.grid()
             gprobe = self._grid_probe(x, old_grid, g, "new", {"pseed": int(op["out"]) + 17})
@@ -1630,6 +1656,11 @@ class _Ops:
         bad = self.classify(st, r, x, "acc:" + how)
         if bad:
             return bad
+        self.c["checks"]["accessor_leaves_receiver"] += 1
+        held_after = self._holds(t)
+        if r is not t and held_after != held_before:
+            changed = [k for k in held_before if held_before[k] != held_after.get(k)]
+            return StepResult("ok", "acc-changed-receiver", [self.viol("C09", "accessor-changed-receiver", x, "acc:" + how, {"changed": changed[:4]})])
         y = self._new_from(x, r, hid, how, buf=x.buf if how in ("grid", "data", "condition") else buf)
         if how in ("grid", "data", "condition"):
             self.set_cleared(y, "acc:" + how)
@@ -2399,6 +2430,8 @@ class _Gen:
             if x.is_comp or family(x.obj) == "spline":
                 return None
             op["grid"] = gen.grid_desc(rng, self.D, 6, 16 if self.D == 2 else 9)
+            if rng.chance(0.35):
+                op["same_size"] = True  # same lattice size, other geometry: the parameter shape stays the same
         elif how == "data":
             if x.is_comp:
                 return None
